@@ -63,14 +63,14 @@ REGISTRY = {
     "C19": _design_prop(OD2.oracle_c19),
     "C22": _design_prop(OD2.oracle_c22),
     "C14": dict(_design_prop(OD2.oracle_c14, quick=40), correspondence=[i7_layout.corr_layout, i7_layout.corr_decode]),
-    "C15": dict(_design_prop(OD2.oracle_c15, quick=50), correspondence=[i10_implied.corr_implied]),
+    "C15": dict(_design_prop(OD2.oracle_c15, quick=50), correspondence=[i10_implied.corr_implied, i8_pipeline.corr_pipeline]),
     "C23": _design_prop(OD2.oracle_c23),
     "C24": _design_prop(OD2.oracle_c24),
     "C25": _design_prop(OD2.oracle_c25),
     "C26": dict(_design_prop(OD2.oracle_c26, quick=50), correspondence=[i8_pipeline.corr_pipeline]),
     "C29": _design_prop(OD2.oracle_c29),
     "C01": dict(_design_prop(OD.oracle_c01, quick=50), correspondence=[i7_layout.corr_kinarow, i8_pipeline.corr_pipeline, i10_implied.corr_implied],
-                oracle=[OD.oracle_c01, i7_layout.oracle_kinarow]),
+                oracle=[OD.oracle_c01_latin, OD.oracle_c01, i7_layout.oracle_kinarow]),
     "C02": dict(_design_prop(OD.oracle_c02, quick=50), correspondence=[i8_pipeline.corr_pipeline]),
     "C03": dict(_design_prop(OD.oracle_c03, quick=50), correspondence=[i8_pipeline.corr_pipeline]),
     "C04": dict(_design_prop(OD.oracle_c04, quick=50), correspondence=[i9_randomgen.corr_randomgen]),
